@@ -373,7 +373,11 @@ impl<'tcx> Cx<'tcx> {
             }
         } else if let ty::Ref(_, inner, _) = *cty.kind() {
             if inner.is_str() {
-                if let Const::Val(cv, _) = c.const_ {
+                let cv = match c.const_ {
+                    Const::Val(cv, _) => Some(cv),
+                    other => other.eval(tcx, bc.env, c.span).ok(),
+                };
+                if let Some(cv) = cv {
                     if let Some(bytes) = cv.try_get_slice_bytes_for_diagnostics(tcx) {
                         row.push(("str", s(String::from_utf8_lossy(bytes).to_string())));
                     }
